@@ -1,12 +1,18 @@
 package main
 
 // C07 - aggregators compute the exact fold of their sample history.
-//   replay : replays TLC-enumerated histories (samples / trims) on the real aggregators and compares
-//            every public accessor with the value the specification expects (B1)
-//   trace  : drives the real aggregators with seeded random long histories and records
-//            reset / sample / trim / obs events for TLC (B2)
+//   replay : replays TLC-enumerated histories (samples / trims / observations in every order) on the
+//            real aggregators - each history on ONE long-lived instance - and compares every public
+//            accessor with the value the specification expects, at every "o" step and at the end (B1)
+//   trace  : drives the real aggregators with seeded random long histories (observations and trims
+//            interleaved at random on the one instance) and records reset / sample / trim / obs
+//            events for TLC (B2)
+// Numerical values are reported in units of 10^-3 RELATIVE TO THE BASE the vector / trace declares
+// (an exact integer subtraction after rounding; the specification folds large values relative to
+// a base because TLC integers have 32 bits).
 
 import (
+	"bufio"
 	"encoding/json"
 	"flag"
 	"fmt"
@@ -14,7 +20,9 @@ import (
 	"math/rand"
 	"os"
 	"sort"
+	"strconv"
 	"strings"
+	"sync"
 
 	"rare/pkg/aggregation"
 	"rare/pkg/aggregation/sorting"
@@ -72,12 +80,13 @@ type accCfg struct {
 
 // subject wraps one real aggregator (two for the numerical one: ascending / reversed analysis).
 type subject struct {
-	kind string
-	ctr  *aggregation.MatchCounter
-	sub  *aggregation.SubKeyCounter
-	tbl  *aggregation.TableAggregator
-	num  [2]*aggregation.MatchNumerical
-	acc  *aggregation.AccumulatingGroup
+	kind  string
+	base3 int64 // numerical: the declared base in units of 10^-3
+	ctr   *aggregation.MatchCounter
+	sub   *aggregation.SubKeyCounter
+	tbl   *aggregation.TableAggregator
+	num   [2]*aggregation.MatchNumerical
+	acc   *aggregation.AccumulatingGroup
 }
 
 func newSubject(kind string, cfg *accCfg) (*subject, error) {
@@ -128,12 +137,52 @@ func (s *subject) sample(el string) {
 	}
 }
 
-func milli(x float64) (int64, bool) {
+// milli: x in units of 10^-3 relative to base3; false if that is not a small finite number.
+// sampleTyped feeds the sample through SampleValue / SampleItem / Samplef with the arguments the
+// specification decoded (through Sample(el) when the specification reads no value: parse errors, acc).
+func (s *subject) sampleTyped(el string, d decoded) {
+	if !d.OK {
+		s.sample(el)
+		return
+	}
+	switch s.kind {
+	case "ctr":
+		s.ctr.SampleValue(str(d.Keys[0]), d.Inc)
+	case "sub":
+		s.sub.SampleValue(str(d.Keys[0]), str(d.Keys[1]), d.Inc)
+	case "tbl":
+		s.tbl.SampleItem(str(d.Keys[0]), str(d.Keys[1]), d.Inc)
+	case "num":
+		x := float64(s.base3+d.Inc) / 1000 // correctly rounded: the float64 nearest to the decimal value
+		s.num[0].Samplef(x)
+		s.num[1].Samplef(x)
+	default:
+		s.sample(el)
+	}
+}
+
+func milli(x float64, base3 int64) (int64, bool) {
 	y := math.Round(x * 1000)
-	if math.IsNaN(y) || math.IsInf(y, 0) || math.Abs(y) > 2e9 {
+	if math.IsNaN(y) || math.IsInf(y, 0) || math.Abs(y) > 4e15 {
 		return 0, false
 	}
-	return int64(y), true
+	d := int64(y) - base3
+	if d > 2000000000 || d < -2000000000 {
+		return 0, false
+	}
+	return d, true
+}
+
+// base3Of parses a base written as decimal text in units.
+func base3Of(text string) (int64, error) {
+	if text == "" {
+		return 0, nil
+	}
+	b, err := strconv.ParseInt(text, 10, 64)
+	if err != nil || b > 100000000000 || b < -100000000000 {
+		return 0, fmt.Errorf("bad base %q", text)
+	}
+	return b * 1000, nil
 }
 
 // QPoints are the quantiles asked of the numerical aggregator (p = p3 / 1000).
@@ -208,12 +257,14 @@ func (s *subject) observe() (o M, panicked string) {
 		o["n"], o["errors"] = a.Count(), a.ParseErrors()
 		finite := true
 		put := func(name string, x float64) {
-			v, ok := milli(x)
+			v, ok := milli(x, s.base3)
 			finite = finite && ok
 			o[name] = v
 		}
 		put("mean3", a.Mean())
-		put("sd3", a.StdDev())
+		sd, ok := milli(a.StdDev(), 0)
+		finite = finite && ok
+		o["sd3"] = sd
 		put("min3", a.Min())
 		put("max3", a.Max())
 		if a.Count() == 0 { // min/max of nothing are +-MaxFloat64: outside the specification
@@ -240,7 +291,7 @@ func (s *subject) observe() (o M, panicked string) {
 					out[i] = panicked3
 					continue
 				}
-				x, ok := milli(v)
+				x, ok := milli(v, s.base3)
 				finite = finite && ok
 				out[i] = x
 			}
@@ -274,20 +325,32 @@ func (s *subject) observe() (o M, panicked string) {
 // ----------------------------------------------------------------- B1: replay
 
 type histStep struct {
-	Op   string `json:"op"`
-	El   []int  `json:"el"`
-	P    pred   `json:"p"`
-	NSel int    `json:"nsel"`
+	Op   string                     `json:"op"` // "s" sample, "t" trim, "o" read every accessor
+	El   []int                      `json:"el"`
+	P    pred                       `json:"p"`
+	NSel int                        `json:"nsel"`
+	Obs  map[string]json.RawMessage `json:"obs"` // "o": what the specification expects at this point
+	Dec  decoded                    `json:"dec"` // "s": how the specification reads the sample
+}
+
+// decoded: the arguments of the typed entry point that must act like Sample(el).
+type decoded struct {
+	OK   bool    `json:"ok"`
+	Keys [][]int `json:"keys"`
+	Inc  int64   `json:"inc"` // increment; numerical: the value relative to the base, in units of 10^-3
 }
 
 type vector struct {
 	Agg  string                     `json:"agg"`
 	Prof int                        `json:"prof"`
+	Base []int                      `json:"base"`
 	H    []histStep                 `json:"h"`
 	Exp  map[string]json.RawMessage `json:"exp"`
+	Cfg  map[string]json.RawMessage `json:"cfg"`
 }
 
 type mismatch struct {
+	idx    int
 	Agg    string      `json:"agg"`
 	Kind   string      `json:"kind"`
 	Hist   []string    `json:"hist"`
@@ -461,6 +524,8 @@ func histText(h []histStep) []string {
 	for _, s := range h {
 		if s.Op == "t" {
 			out = append(out, fmt.Sprintf("trim(%s c=%q r=%q v=%d)", s.P.K, str(s.P.C), str(s.P.R), s.P.V))
+		} else if s.Op == "o" {
+			out = append(out, "observe()")
 		} else {
 			out = append(out, fmt.Sprintf("%q", str(s.El)))
 		}
@@ -472,72 +537,196 @@ func c07Replay(args []string) error {
 	fs := flag.NewFlagSet("replay", flag.ExitOnError)
 	in := fs.String("in", "vectors.ndjson", "")
 	outp := fs.String("out", "replay.json", "")
+	workers := fs.Int("workers", 6, "vectors are independent: replayed by this many goroutines")
 	fs.Parse(args)
-	var mism []mismatch
-	runs, nontrivial := 0, 0
-	var samples []interface{}
-	perAgg := map[string]int{}
-	perKind := map[string]int{}
-	err := vh.ReadNd(*in, func(raw json.RawMessage) error {
-		var v vector
-		if err := json.Unmarshal(raw, &v); err != nil {
-			return err
+	f, err := os.Open(*in)
+	if err != nil {
+		return err
+	}
+	defer f.Close()
+	type job struct {
+		idx  int
+		line []byte
+	}
+	jobs := make(chan job, 256)
+	states := make([]*replayState, *workers)
+	errs := make([]error, *workers)
+	var wg sync.WaitGroup
+	for w := 0; w < *workers; w++ {
+		states[w] = &replayState{perKind: map[string]int{}, perAgg: map[string]int{}}
+		wg.Add(1)
+		go func(w int) {
+			defer wg.Done()
+			for j := range jobs {
+				if errs[w] == nil {
+					errs[w] = replayVector(j.idx, j.line, states[w])
+				}
+			}
+		}(w)
+	}
+	sc := bufio.NewScanner(f)
+	sc.Buffer(make([]byte, 1<<20), 1<<28)
+	n := 0
+	for sc.Scan() {
+		if len(sc.Bytes()) == 0 {
+			continue
 		}
-		var cfg *accCfg
-		if v.Agg == "acc" {
-			cfg = &accCfg{}
-			json.Unmarshal(v.Exp["groups"], &cfg.Groups)
-			json.Unmarshal(v.Exp["cols"], &cfg.Cols)
+		n++
+		jobs <- job{n, append([]byte{}, sc.Bytes()...)}
+	}
+	close(jobs)
+	wg.Wait()
+	if err := sc.Err(); err != nil {
+		return err
+	}
+	// merge (deterministically: by vector index)
+	tot := &replayState{perKind: map[string]int{}, perAgg: map[string]int{}}
+	for w, st := range states {
+		if errs[w] != nil {
+			return errs[w]
+		}
+		tot.runs += st.runs
+		tot.nontrivial += st.nontrivial
+		tot.nobs += st.nobs
+		tot.execs += st.execs
+		for k, c := range st.perAgg {
+			tot.perAgg[k] += c
+		}
+		tot.mism = append(tot.mism, st.mism...)
+		tot.samples = append(tot.samples, st.samples...)
+	}
+	sort.SliceStable(tot.mism, func(i, j int) bool { return tot.mism[i].idx < tot.mism[j].idx })
+	var mism []mismatch
+	for _, m := range tot.mism {
+		k := m.Agg + ":" + m.Kind
+		tot.perKind[k]++
+		if tot.perKind[k] <= 25 {
+			mism = append(mism, m)
+		}
+	}
+	sort.SliceStable(tot.samples, func(i, j int) bool { return tot.samples[i].idx < tot.samples[j].idx })
+	var samples []interface{}
+	for i, sm := range tot.samples {
+		if i < 5 {
+			samples = append(samples, sm.v)
+		}
+	}
+	vh.WriteJSON(*outp, M{"runs": tot.runs, "distinct_nontrivial": tot.nontrivial, "observations": tot.nobs, "executions": tot.execs,
+		"per_agg": tot.perAgg, "per_kind": tot.perKind, "mismatches": mism, "samples": samples})
+	return nil
+}
+
+// replayVector: every history is replayed twice, each time on one fresh long-lived instance: samples
+// fed as text through Sample(el), and through the typed entry points with the decoded arguments.
+func replayVector(idx int, raw []byte, rs *replayState) error {
+	var v vector
+	if err := json.Unmarshal(raw, &v); err != nil {
+		return err
+	}
+	var cfg *accCfg
+	if v.Agg == "acc" {
+		cfg = &accCfg{}
+		json.Unmarshal(v.Cfg["groups"], &cfg.Groups)
+		json.Unmarshal(v.Cfg["cols"], &cfg.Cols)
+	}
+	base3, err := base3Of(str(v.Base))
+	if err != nil {
+		return err
+	}
+	rs.runs++
+	rs.perAgg[v.Agg]++
+	if len(v.H) >= 2 {
+		rs.nontrivial++
+	}
+	for _, typed := range []bool{false, true} {
+		if typed && v.Agg == "acc" {
+			continue
 		}
 		s, err := newSubject(v.Agg, cfg)
 		if err != nil {
 			return err
 		}
-		runs++
-		perAgg[v.Agg]++
-		if len(v.H) >= 2 {
-			nontrivial++
+		s.base3 = base3
+		if err := replayOne(idx, &v, s, typed, rs); err != nil {
+			return err
 		}
+	}
+	return nil
+}
+
+type idxSample struct {
+	idx int
+	v   interface{}
+}
+
+type replayState struct {
+	mism                          []mismatch
+	perKind, perAgg               map[string]int
+	samples                       []idxSample
+	runs, nontrivial, nobs, execs int
+}
+
+// replayOne runs the whole history on the one instance s; every accessor is read at each "o" step
+// and after the last step.
+func replayOne(idx int, vp *vector, s *subject, typed bool, rs *replayState) error {
+	v := *vp
+	rs.execs++
+	{
 		add := func(kind string, got, exp interface{}) {
-			perKind[v.Agg+":"+kind]++
-			if perKind[v.Agg+":"+kind] > 25 {
+			if typed {
+				kind = "typed:" + kind
+			}
+			rs.perKind[v.Agg+":"+kind]++
+			if rs.perKind[v.Agg+":"+kind] > 25 {
 				return
 			}
-			mism = append(mism, mismatch{Agg: v.Agg, Kind: kind, Hist: histText(v.H), Got: got, Exp: exp, Vector: v})
+			rs.mism = append(rs.mism, mismatch{idx: idx, Agg: v.Agg, Kind: kind, Hist: histText(v.H), Got: got, Exp: exp, Vector: v})
+		}
+		check := func(exp map[string]json.RawMessage) (M, bool) {
+			got, pan := s.observe()
+			if pan != "" {
+				add("panic", pan, nil)
+				return nil, false
+			}
+			for _, d := range compare(v.Agg, got, exp) {
+				kind := d[0].(string)
+				if v.Agg == "tbl" && anyOf(exp["dirty"]) == true {
+					kind = "trim:" + kind
+				}
+				add(kind, d[1], d[2])
+			}
+			return got, true
 		}
 		for _, st := range v.H {
-			if st.Op == "t" {
+			switch st.Op {
+			case "t":
 				before := s.tbl.RowCount() * s.tbl.ColumnCount()
 				ret := s.tbl.Trim(st.P.fn())
 				if ret < st.NSel || ret > before {
 					add("trim-count", ret, st.NSel)
 				}
-			} else {
-				s.sample(str(st.El))
+			case "o":
+				rs.nobs++
+				if _, ok := check(st.Obs); !ok {
+					return nil
+				}
+			default:
+				if typed {
+					s.sampleTyped(str(st.El), st.Dec)
+				} else {
+					s.sample(str(st.El))
+				}
 			}
 		}
-		got, pan := s.observe()
-		if pan != "" {
-			add("panic", pan, nil)
+		rs.nobs++
+		got, ok := check(v.Exp)
+		if !ok {
 			return nil
 		}
-		for _, d := range compare(v.Agg, got, v.Exp) {
-			kind := d[0].(string)
-			if v.Agg == "tbl" && anyOf(v.Exp["dirty"]) == true {
-				kind = "trim:" + kind
-			}
-			add(kind, d[1], d[2])
+		if len(rs.samples) < 5 && len(v.H) == 3 && idx%97 == 0 {
+			rs.samples = append(rs.samples, idxSample{idx, M{"agg": v.Agg, "typed": typed, "history": histText(v.H), "observed": got}})
 		}
-		if len(samples) < 5 && len(v.H) == 3 && runs%97 == 0 {
-			samples = append(samples, M{"agg": v.Agg, "history": histText(v.H), "observed": got})
-		}
-		return nil
-	})
-	if err != nil {
-		return err
 	}
-	vh.WriteJSON(*outp, M{"runs": runs, "distinct_nontrivial": nontrivial, "per_agg": perAgg, "per_kind": perKind,
-		"mismatches": mism, "samples": samples})
 	return nil
 }
 
@@ -633,6 +822,8 @@ func c07Trace(args []string) error {
 		prof, n       int
 		keys, subkeys int
 	}
+	// numerical profiles >= 4: large offset, small spread (values = base + delta)
+	bigBases := []string{"1700000000", "-3000000000", "10000000000", "16777216", "4294967296", "99999999", "-16777217", "1234567890"}
 	var plans []plan
 	sc := *scale
 	plans = append(plans,
@@ -640,6 +831,7 @@ func c07Trace(args []string) error {
 		plan{"sub", 0, 1000 * sc, 25, 18}, plan{"sub", 0, 400 * sc, 3, 40}, plan{"sub", 0, 300 * sc, 40, 3},
 		plan{"tbl", 0, 1000 * sc, 20, 15}, plan{"tbl", 0, 500 * sc, 5, 30}, plan{"tbl", 1, 600 * sc, 12, 12},
 		plan{"num", 0, 2500 * sc, 400, 0}, plan{"num", 1, 1200 * sc, 12, 0}, plan{"num", 2, 301 * sc, 60, 0}, plan{"num", 3, 64 * sc, 1000, 0},
+		plan{"num", 4, 300 * sc, 40, 0}, plan{"num", 5, 150 * sc, 500, 0}, plan{"num", 6, 40 * sc, 4, 0}, plan{"num", 4, 7, 3, 0},
 		plan{"acc", 1, 400 * sc, 6, 0}, plan{"acc", 2, 400 * sc, 5, 4}, plan{"acc", 3, 300 * sc, 3, 0})
 	for pi, pl := range plans {
 		r := vh.NewRand(int64(7000 + pi))
@@ -655,7 +847,14 @@ func c07Trace(args []string) error {
 		if err != nil {
 			return err
 		}
-		w.Write(M{"event": "reset", "t": tid, "agg": pl.agg, "prof": pl.prof})
+		base := "0"
+		if pl.agg == "num" && pl.prof >= 4 {
+			base = bigBases[r.Intn(len(bigBases))]
+		}
+		if s.base3, err = base3Of(base); err != nil {
+			return err
+		}
+		w.Write(M{"event": "reset", "t": tid, "agg": pl.agg, "prof": pl.prof, "base": BS(base)})
 		pts := obsPoints(pl.n)
 		keys := makePool(r, pl.keys)
 		var subkeys []string
@@ -671,6 +870,12 @@ func c07Trace(args []string) error {
 					vals = append(vals, (r.Intn(25)-5)*1000) // few small integers: ties for the mode
 				case 2:
 					vals = append(vals, 99999000+r.Intn(1000)) // large mean, tiny spread
+				case 4:
+					vals = append(vals, int(s.base3)+r.Intn(4001)-2000) // base +- 2
+				case 5:
+					vals = append(vals, int(s.base3)+r.Intn(60001)) // a minute of timestamps with milliseconds
+				case 6:
+					vals = append(vals, int(s.base3)+1000*i) // base, base+1, base+2, ...
 				default:
 					vals = append(vals, r.Intn(200000001)-100000000)
 				}
@@ -724,7 +929,12 @@ func c07Trace(args []string) error {
 			}
 			s.sample(el)
 			w.Write(M{"event": "sample", "el": BS(el)})
-			if pl.agg == "tbl" && (pl.prof == 1 && step%97 == 0 || step == pl.n*3/4) {
+			// a trim at a random point; in half of the cases every accessor is read right before it, and
+			// mostly right after it as well: accessor - mutator - accessor with no sample in between
+			if periodic := pl.prof == 1 && r.Intn(60) == 0; pl.agg == "tbl" && (periodic || step == pl.n*3/4) {
+				if !periodic || r.Intn(2) == 0 {
+					emitObs(s)
+				}
 				var p pred
 				switch r.Intn(6) {
 				case 0:
@@ -748,10 +958,16 @@ func c07Trace(args []string) error {
 				}
 				ret := s.tbl.Trim(p.fn())
 				w.Write(M{"event": "trim", "p": p, "ret": ret})
-				emitObs(s)
+				if !periodic || r.Intn(5) != 0 {
+					emitObs(s)
+				}
 			}
-			if pts[step] {
+			// observations: at fixed points and at random ones (sometimes twice in a row)
+			if extra := r.Intn(pl.n/6+1) == 0; pts[step] || extra {
 				emitObs(s)
+				if extra && r.Intn(3) == 0 {
+					emitObs(s)
+				}
 			}
 		}
 	}
